@@ -359,6 +359,15 @@ class SymExec:
             dest = self.place_loc(st, t["dest"])
             self.write(st, dest, args[0])
             return {"k": "call", "name": name, "args": args, "locargs": args, "term": args[0], "inlined": True, "ret": args[0], "site": site, "dest": dest}
+        # Vec / slice / array element access by a plain usize index: a projection of the argument
+        if name.endswith("::index_mut") or name.endswith("::index"):
+            ra = [self.fb.ty(a["ty"]).s for a in t.get("resolved_args", []) if "ty" in a]
+            if len(args) == 2 and args[0][0] == "ref" and "usize" in ra and not any("Range" in x for x in ra) and (name.startswith("<std::vec::Vec<") or name.startswith("core::slice::index::<impl") or name.startswith("std::array::<impl")):
+                dest = self.place_loc(st, t["dest"])
+                r = ("ref", ("index", args[0][1], args[1]), args[0][2])
+                self.write(st, dest, r)
+                snap = (("refv", self.read(st, args[0][1])), args[1])
+                return {"k": "call", "name": name, "args": snap, "locargs": args, "term": r, "inlined": True, "ret": r, "site": site, "dest": dest, "elem_access": True}
         local = (bool(t.get("resolved_local")) or name in self.fb.bodies) and name in self.fb.bodies
         dest = self.place_loc(st, t["dest"])
         # in the recorded call term a reference argument is snapshotted to the pointee's value
@@ -474,7 +483,7 @@ class SymExec:
     def execute(self):
         """fixpoint, then elimination of redundant phis (phi cycles whose only outside input
         is one value - Braun et al.), repeated until none is left"""
-        for rnd in range(8):
+        for rnd in range(24):
             self._fixpoint()
             red = self._redundant_phis()
             if not red:
@@ -487,11 +496,19 @@ class SymExec:
         return self
 
     def _redundant_phis(self):
+        """phis that merge a single value: (a) trivial - all operands other than the phi itself
+        are one term X; (b) a cycle of phis whose only outside operand is one term X"""
         out = {}
         for (bb, key), ins in self.phi_inputs.items():
             if bb == "ret":
                 continue
             me = ("phi", self.fn, bb, key, ())
+            others = {v for v in ins.values() if v != me}
+            if len(others) == 1:
+                x = next(iter(others))
+                if not any(y == me for y in walk(x)):
+                    out[(bb, key)] = x
+                    continue
             leaves = set()
             seen = {me}
             work = list(ins.values())
@@ -512,7 +529,9 @@ class SymExec:
                 leaf = next(iter(leaves))
                 if not any(x == me for x in walk(leaf)):
                     out[(bb, key)] = leaf
-        return out
+        # a replacement must not mention a phi that is itself replaced in this round
+        gone = {("phi", self.fn, bb, key, ()) for (bb, key) in out}
+        return {k: v for k, v in out.items() if not any(x in gone for x in walk(v))} or ({k: v for k, v in list(out.items())[:1]} if out else {})
 
     def _fixpoint(self):
         order = rpo(self.body)
